@@ -1669,7 +1669,9 @@ impl Simk {
                     let fd = unsafe { ((up.fds as usize + i as usize * 4) as *const i32).read_unaligned() };
                     if fd == -1 {
                         let r = self.close_fixed(ring, up.offset + i, "files-update-register");
-                        if r < 0 {
+                        // Clearing a slot that is already empty is not an error
+                        // (K-conf: the real kernel returns the count).
+                        if r < 0 && r != -libc::EBADF {
                             return if done > 0 { done } else { r };
                         }
                     }
@@ -1716,6 +1718,7 @@ impl Simk {
                         .filter(|r| !r.done && r.ring == ring && !r.awaiting_notif)
                         .map(|r| r.serial)
                         .collect();
+                    let n = targets.len() as i32;
                     for t in targets {
                         self.fail(t, -libc::ECANCELED);
                         if self.req(t).awaiting_notif {
@@ -1724,7 +1727,7 @@ impl Simk {
                             self.finish(t, 0, CQE_F_NOTIF);
                         }
                     }
-                    0
+                    n
                 }
             },
             _ => -libc::EINVAL,
@@ -1902,9 +1905,14 @@ unsafe fn k_enter(
             let Some(ring) = k.ring_by_fd(fd) else {
                 return set_errno(libc::EBADF);
             };
-            if let Err(e) = k.check_submitter(ring) {
-                k.log.push(Event::Enter { ring, to_submit, min_complete, flags, ret: e, timeout });
-                return ret(e);
+            // The kernel only checks the submitter when there is something to
+            // submit, or when waiting on a DEFER_TASKRUN ring (K-conf).
+            let defer_wait = flags & ENTER_GETEVENTS != 0 && k.rings[ring].flags & SETUP_DEFER_TASKRUN != 0;
+            if to_submit > 0 || defer_wait {
+                if let Err(e) = k.check_submitter(ring) {
+                    k.log.push(Event::Enter { ring, to_submit, min_complete, flags, ret: e, timeout });
+                    return ret(e);
+                }
             }
             if !k.rings[ring].enabled {
                 k.log.push(Event::Enter { ring, to_submit, min_complete, flags, ret: -libc::EBADFD, timeout });
